@@ -555,3 +555,16 @@ func Bad_VacuousLoop(n int) int {
 	}
 	return s
 }
+
+// TwoPre has two requires clauses; Bad_SecondPre violates only the second one, Ok_SecondPre satisfies both.  (Every
+// requires clause of a callee is an obligation of its own at a call site.)
+func TwoPre(a, b int) int { return a + b }
+
+func Bad_SecondPre(x int) int { return TwoPre(1, x) }
+
+func Ok_SecondPre(x int) int {
+	if x < 0 || x > 10 {
+		return 0
+	}
+	return TwoPre(1, x)
+}
